@@ -300,3 +300,13 @@ def isCNil(l: "ChildList") -> Bool:
             return True
         case CCons(c, r):
             return False
+
+
+@spec
+def clen(l: "ChildList") -> Int:
+    "len() of a list / tuple argument (its items, before flattening)"
+    match l:
+        case CNil():
+            return 0
+        case CCons(c, r):
+            return 1 + clen(r)
